@@ -42,6 +42,10 @@ def gen(ctx):
     for dim in (1, 2):
         for memo in ("False", "True", "recursive_lit"):
             yield dict(kind="dyncont", dim=dim, H=rng.randint(1, 3), T1=rng.randint(1, 3), K=0, memo=memo, seed=rng.randrange(10 ** 6))
+    for _ in range(ctx.n(30, 300)):
+        yield dict(kind="nf", dim=rng.choice([1, 1, 2]), N=rng.randint(3, 8), H=rng.randint(1, 2), T1=rng.randint(2, 4), T2=rng.randint(2, 4),
+                   memo=rng.choice(["False", "True", "recursive_lit"]), dyn=int(rng.random() < 0.3), dtype=rng.choice(["float64", "float32"]),
+                   seed=rng.randrange(10 ** 6))
     # inexact floating-point rules on narrow float dtypes (oracle only: no exact model of float arithmetic):
     # the split law must hold bit for bit because every step reads the stored (rounded) previous row
     for _ in range(ctx.n(60, 600)):
@@ -68,7 +72,7 @@ def _mod(c):
 
 
 def line(c):
-    if c["kind"] in ("evf", "dyncont"):
+    if c["kind"] in ("evf", "dyncont", "nf"):
         return None
     m = _mod(c)
     if m:
@@ -92,7 +96,7 @@ def _float_case(c):
 
 
 def impl(c):
-    if c["kind"] in ("evf", "dyncont"):
+    if c["kind"] in ("evf", "dyncont", "nf"):
         return "n/a"
     m = _mod(c)
     if m:
@@ -140,7 +144,29 @@ def oracle_dyncont(c):
     return None
 
 
+def oracle_nf(c):
+    """A history that contains NaN / inf rows (the result of an earlier evolution) is extended like any other."""
+    ca = ev1.nf_automaton(c)
+    snap = ca.tobytes()
+    try:
+        first = ev1.nf_evolve(c, ca, c["T1"], c["memo"])
+        snap1 = first.tobytes()
+        second = ev1.nf_evolve(c, first, (lambda a, t: t < c["T2"]) if c.get("dyn") else c["T2"], c["memo"])
+        once = ev1.nf_evolve(c, ca.copy(), c["T1"] + c["T2"] - 1, c["memo"])
+    except Exception as e:
+        return "evolving / continuing a float automaton with NaN or inf states raised %s: %s" % (type(e).__name__, str(e)[:70])
+    if ca.tobytes() != snap or first.tobytes() != snap1:
+        return "a given history was modified"
+    if second[:len(first)].tobytes() != snap1:
+        return "the given history (with NaN / inf states) is not returned unchanged as a prefix"
+    if second.shape != once.shape or second.tobytes() != once.tobytes():
+        return "continuing an evolution with NaN / inf states differs from evolving at once"
+    return None
+
+
 def oracle(c):
+    if c["kind"] == "nf":
+        return oracle_nf(c)
     if c["kind"] == "dyncont":
         return oracle_dyncont(c)
     if c["kind"] == "evf":
@@ -169,7 +195,7 @@ def oracle(c):
     ca = ev1.make_ca(c)
     snap = (ca.tobytes(), ca.dtype, ca.shape)
     memo = ev1.memo_value(c["memo"])
-    rule = Rule(c["rule"], c.get("scale", 1), clobber=bool(c.get("clobber")), mixret=bool(c.get("mixret")))
+    rule = Rule(c["rule"], c.get("scale", 1), clobber=bool(c.get("clobber")), mixret=c.get("mixret") or False)
     first = cpl.evolve(ca, timesteps=T1, apply_rule=rule, r=c["r"], memoize=memo)
     if (ca.tobytes(), ca.dtype, ca.shape) != snap:
         return "the caller's array was modified by evolve"
@@ -184,13 +210,13 @@ def oracle(c):
     second = cpl.evolve(first, timesteps=T2, apply_rule=rule, r=c["r"], memoize=memo)
     if first.tobytes() != snap1:
         return "the caller's array was modified by the continued evolve"
-    once = cpl.evolve(ev1.make_ca(c), timesteps=T1 + T2 - 1, apply_rule=Rule(c["rule"], c.get("scale", 1), clobber=bool(c.get("clobber")), mixret=bool(c.get("mixret"))), r=c["r"], memoize=memo)
+    once = cpl.evolve(ev1.make_ca(c), timesteps=T1 + T2 - 1, apply_rule=Rule(c["rule"], c.get("scale", 1), clobber=bool(c.get("clobber")), mixret=c.get("mixret") or False), r=c["r"], memoize=memo)
     if second.shape != once.shape or second.dtype != once.dtype or second.tobytes() != once.tobytes():
         return "evolving %d then %d steps differs from %d steps at once" % (T1, T2, T1 + T2 - 1)
     # only the last row of the history matters
     if H > 1:
         c2 = dict(c, hist=[c["hist"][-1]])
-        alone = cpl.evolve(ev1.make_ca(c2), timesteps=T1, apply_rule=Rule(c["rule"], c.get("scale", 1), clobber=bool(c.get("clobber")), mixret=bool(c.get("mixret"))), r=c["r"], memoize=memo)
+        alone = cpl.evolve(ev1.make_ca(c2), timesteps=T1, apply_rule=Rule(c["rule"], c.get("scale", 1), clobber=bool(c.get("clobber")), mixret=c.get("mixret") or False), r=c["r"], memoize=memo)
         if alone[1:].tobytes() != first[H:].tobytes():
             return "new rows depend on more than the last row of the history"
     return None
